@@ -27,7 +27,7 @@ def ctor_calls(ctx, q: str, class_names: Sequence[str]):
     out = []
     for c in r.calls:
         for cq in c.callees:
-            if cq.endswith('.__init__') and cq.split('.')[-2] in class_names and ctx.dep.prog.functions[cq].name == '__init__':
+            if cq.endswith('.__init__') and ctx.dep.prog.functions[cq].name == '__init__':
                 fn = c.node.func
                 if _leaf(fn) in class_names:
                     out.append((c, cq))
